@@ -94,6 +94,24 @@ def r2_bounded_reader(ctx):
                         ctx.bad("overflow-flagged", f.where(S), "the over-limit branch can leave the reader without setting the overflow flag: the shortened buffer is returned as if complete")
                     else:
                         ctx.ok("overflow-flagged", f.where(S), "over-limit branch passes compare_exchange before returning")
+    # every way out of the reader loop is either end-of-file (a read that returned 0) or the flagged overflow:
+    # leaving because "the buffer is full" would return a capture cut exactly at the limit as if it were complete
+    eof_edges = []
+    for S in sorted(f.live):
+        if f.blocks[S]["t"]["k"] == "switch":
+            si = f.switch_info(S)
+            if si["kind"] == "bin" and si["op"] in ("Eq", "Ne"):
+                a, b = sh(ne(f.deep(si["a"]))), sh(ne(f.deep(si["b"])))
+                if ("read(" in a and b == "0") or ("read(" in b and a == "0"):
+                    eof_edges += [(S, lab) for lab, _ in f.succ[S] if (lab != 0) == (si["op"] == "Eq")]
+    err_blocks = [c.block for c in f.calls() if "from_residual" in (c.callee or "")]
+    r = f.reach([0], removed_nodes=[c.block for c in cas] + err_blocks, removed_edges=eof_edges)
+    if not eof_edges:
+        ctx.bad("reader|no-eof-test", f.where(), "the reader no longer recognises end-of-file by a read that returns 0")
+    elif r & set(f.exits()):
+        ctx.bad("reader|exit-without-eof-or-flag", f.where(), "the reader loop can be left without having seen end-of-file and without flagging overflow (e.g. because the buffer reached the limit): output beyond the limit is silently dropped")
+    else:
+        ctx.ok("reader|exits", f.where(), "the loop is left only on read == 0, on a read error, or after flagging overflow")
     # `max` is the cap handed in
     mx = [sh(ne(f.deep_rvalue(s["rv"]))) for b in f.live for s in f.blocks[b]["s"] if f.locals[s["lhs"]["l"]]["name"] == "max" and not s["lhs"]["p"]]
     if mx and all("cap" in m for m in mx):
